@@ -20,7 +20,7 @@ from vlib import sqlo
 
 PROP = 'C19'
 META = {
-    'extractors': ['pyevents', 'pyevmain'],
+    'extractors': ['pyevents', 'pyevmain', 'pyinherit'],
     'technique': ('Lean 4 proof (induction over the listener list for every send; per-operation log-shape equations '
                   'for every state and listener configuration; induction over histories; induction over the '
                   'chain depth) + differential correspondence on the merged signal/statement log'),
@@ -45,9 +45,13 @@ META = {
                    'flag) / _syncUpdate_eq_model / _destroySelf_eq_model / _create_eq_model (__init__ -> _create -> set -> _SO_finishCreate -> '
                    '_init -> thunk flush; success, validation failure, lazy) prove the translated programs = opSet / opAssign / opSyncUpdate / '
                    'opDestroy / opCreate for every listener list, state and kwargs, and C19_translated_events_once_in_order(_create) / '
-                   '_rewrite_is_stored / _post_funcs_run_after restate the property about the translated source; still hand model + '
-                   'correspondence only: get / select (no events), the inheritance chain (C19_created_after_all_levels) and listeners that '
-                   'create rows of another class; create needs >= 1 column and a fresh next id; connection, cache, '
+                   '_rewrite_is_stored / _post_funcs_run_after restate the property about the translated source; C19_translated_created_after_all_levels: for every chain depth and listener placement the translated '
+                   'outermost constructor (SQLObject.__init__ with the PyInherit translation of InheritableSQLObject._create run over the same world: '
+                   'nested translated __init__ of the parent, then SQLObject._create under the parent id; flush loop over n thunks; induction on '
+                   'the depth) logs exactly Chain.createObj, so every RowCreatedSignal follows the INSERTs of all levels (assumes constructors '
+                   'without column keywords, RowCreateSignal listeners that leave kwargs empty, validating defaults: ChainOk); still hand model + '
+                   'correspondence only: get / select (no events), listeners that create rows of another class, the subclass-time copy of '
+                   'listeners (Chain.effective); create needs >= 1 column and a fresh next id; connection, cache, '
                    'validators and the cascade inside destroySelf are stated parameters (header of Model/EvMainX.lean). '
                    'Trusted: Lean kernel; pydispatch delivery order (modelled as connection order, checked by the '
                    'correspondence run); the sampling correspondence.  The lazy path is stated as the code behaves: a lazy '
